@@ -129,6 +129,14 @@ func DNSMsg(t *rapid.T, o DNSOptions) ref.Msg {
 			copy(r.A[:], Bytes(t, 4, l+"a"))
 		case 28:
 			copy(r.AAAA[:], Bytes(t, 16, l+"aaaa"))
+			switch rapid.IntRange(0, 7).Draw(t, l+"aaaaShape") { // address shapes a 16-byte draw never hits
+			case 0: // IPv4-mapped: still an AAAA record
+				r.AAAA = [16]byte{10: 0xff, 11: 0xff, 12: 192, 13: 168, 14: 0, 15: r.AAAA[15]}
+			case 1:
+				r.AAAA = [16]byte{} // ::
+			case 2:
+				r.AAAA = [16]byte{0: 0xfe, 1: 0x80, 15: r.AAAA[15]}
+			}
 		case 5, 12, 2:
 			r.Target = pick(l + "target")
 		case 16:
